@@ -444,7 +444,11 @@ fn step(c: &mut Ctx, r: &mut Rng) -> Result<&'static str, Fail> {
                     // write (the client computes the offset for O_APPEND)
                     if acc != libc::O_RDONLY {
                         let cur = fs::metadata(&pb).map(|m| m.len()).unwrap_or(0);
-                        let woff = if flags & libc::O_APPEND != 0 { cur } else { off };
+                        // ... usually: a third of the appends carry a stale offset (the file grew behind the client's back),
+                        // which pwrite() on an O_APPEND descriptor ignores. Not under write-back caching, where appending is
+                        // the client's business and the server strips O_APPEND.
+                        let wb_on = c.a.kc.pt.enabled & kconst("FUSE_WRITEBACK_CACHE") != 0;
+                        let woff = if flags & libc::O_APPEND != 0 && (wb_on || r.chance(2, 3)) { cur } else { off };
                         let wa = c.a.kc.pt.conn.write(ino, fh, woff, &data, 0, flags as u32);
                         let wb = unsafe { libc::pwrite(fdb, data.as_ptr() as *const _, data.len(), woff as i64) };
                         c.trace.push(format!("  write({} bytes at {}) -> {:?} / {}", data.len(), woff, wa, wb));
